@@ -178,7 +178,7 @@ def analyse(repo):
         for st in m.tree.body:
             if isinstance(st, ast.Expr) and isinstance(st.value, ast.Call):
                 key = (m.name, norm_stmt(st))
-                if key not in REVIEWED_TOPLEVEL:
+                if key not in REVIEWED_TOPLEVEL and not _effect_free_call(repo, E, m, st.value):
                     findings.append(("R2", m.name, f"import-time call {norm_stmt(st)[:80]}", f"{m.relpath}:{st.lineno}",
                                      "statement executed for effect at import"))
             for t in (st.targets if isinstance(st, ast.Assign) else [st.target] if isinstance(st, (ast.AugAssign, ast.AnnAssign)) else []):
@@ -237,6 +237,42 @@ def analyse(repo):
             pass
     stats["memo_ok"] = memo_ok
     return findings, stats, E
+
+
+def _effect_free_call(repo, E, m, call):
+    """an import-time bare call of a package function that (with everything it reaches by resolved names) stores to nothing —
+    no attribute/subscript store, no mutator call, no global/nonlocal — can only raise: a sanity check written as a helper"""
+    if not isinstance(call.func, ast.Name):
+        return False
+    try:
+        r = repo.resolve_binding(m, call.func.id)
+    except AnalysisError:
+        return False
+    if r is None or r[0] != "func":
+        return False
+    from ..recursion import CallGraph
+    cg = getattr(repo, "_callgraph", None)
+    if cg is None:
+        cg = repo._callgraph = CallGraph(repo)
+    dirty = {s_.func.qualname for s_ in E.sites}
+    seen, stack = set(), [r[1].qualname]
+    while stack:
+        q = stack.pop()
+        if q in seen:
+            continue
+        seen.add(q)
+        if q in dirty or q not in cg.funcs:
+            return False
+        fnode = cg.funcs[q][2].node
+        if any(isinstance(n, (ast.Global, ast.Nonlocal, ast.Yield, ast.YieldFrom)) for n in ast.walk(fnode)):
+            return False
+        if cg.loose.get(q):
+            # calls through attributes or passed-on function objects: receivers unknown — only the field/curve method
+            # names resolved inside the package are followed; anything dirty among them refuses
+            for t in cg.loose[q]:
+                stack.append(t)
+        stack.extend(cg.exact.get(q, ()))
+    return True
 
 
 def run(chk, repo, tier):
